@@ -19,6 +19,10 @@ func describe(p *Program, o *Outcome) string {
 	var sb strings.Builder
 	fmt.Fprintf(&sb, "%s slot=%d unique=%v in_node=%v init=%d;", p.Note, p.Store.Slot, p.Store.Unique, p.Store.InNode, len(p.Init))
 	for i, w := range p.Writers {
+		if i >= len(o.W) {
+			fmt.Fprintf(&sb, " %s%v (no outcome);", w.Label, w.Ops)
+			continue
+		}
 		fmt.Fprintf(&sb, " %s%v committed=%v merges=%d", w.Label, w.Ops, o.W[i].Committed, o.W[i].Merges)
 		if o.W[i].CommitErr != "" {
 			fmt.Fprintf(&sb, " err=%q", tail(o.W[i].CommitErr, 120))
